@@ -14,4 +14,8 @@ def run(ctx):
     D.restore(ctx)
     ctx.rule("R-IDLE-RESET", "after a failed operation the server's transaction identity is cleared (reset_query and every return to IDLE)", floor=3)
     D.idle_reset(ctx)
+    ctx.rule("R-SEED-ANY", "client: a seed response is answered with the key whatever the 16-bit seed (0xFFFF included)", floor=1)
+    D.seed_any(ctx)
+    ctx.rule("R-SEED-BIND", "server: the stored seed changes only when a seed message carrying it is sent", floor=1)
+    D.seed_bind(ctx)
     return "key-check dominance, error translation, bounded wait and restore-on-all-exits of the DM14 facade, client and server"
